@@ -1,0 +1,71 @@
+//go:build verif
+
+package datastore
+
+import (
+	"context"
+	"sync"
+
+	sdcpb "github.com/sdcio/sdc-protos/sdcpb"
+
+	"github.com/sdcio/data-server/pkg/cache"
+	"github.com/sdcio/data-server/pkg/config"
+	schemaClient "github.com/sdcio/data-server/pkg/datastore/clients/schema"
+	"github.com/sdcio/data-server/pkg/datastore/target"
+	"github.com/sdcio/data-server/pkg/datastore/types"
+	"github.com/sdcio/data-server/pkg/schema"
+)
+
+// NewForVerif builds a Datastore exactly like New, except that the southbound
+// target is handed in by the verification harness instead of being dialled, and
+// no background goroutine (connect, sync, deviation manager) is started.
+func NewForVerif(c *config.DatastoreConfig, sc schema.Client, cc cache.Client, t target.Target) *Datastore {
+	ds := &Datastore{
+		config:                   c,
+		schemaClient:             schemaClient.NewSchemaClientBound(c.Schema.GetSchema(), sc),
+		cacheClient:              cc,
+		sbi:                      t,
+		m:                        &sync.RWMutex{},
+		md:                       &sync.RWMutex{},
+		dmutex:                   &sync.Mutex{},
+		deviationClients:         make(map[string]sdcpb.DataServer_WatchDeviationsServer),
+		currentIntentsDeviations: make(map[string][]*sdcpb.WatchDeviationResponse),
+	}
+	ds.transactionManager = types.NewTransactionManager(NewDatastoreRollbackAdapter(ds))
+	if c.Sync != nil {
+		ds.synCh = make(chan *target.SyncUpdate, c.Sync.Buffer)
+	}
+	ds.cfn = func() {}
+	return ds
+}
+
+// VerifRunDeviationCycle runs exactly one deviation cycle towards the given streams.
+func (d *Datastore) VerifRunDeviationCycle(ctx context.Context, dm map[string]sdcpb.DataServer_WatchDeviationsServer) {
+	d.runDeviationUpdate(ctx, dm)
+}
+
+// VerifDeviationClients returns a copy of the registered deviation streams.
+func (d *Datastore) VerifDeviationClients() map[string]sdcpb.DataServer_WatchDeviationsServer {
+	d.m.RLock()
+	defer d.m.RUnlock()
+	dm := make(map[string]sdcpb.DataServer_WatchDeviationsServer, len(d.deviationClients))
+	for n, s := range d.deviationClients {
+		dm[n] = s
+	}
+	return dm
+}
+
+// VerifOpenTransaction is a read-only observer of the open transaction slot.
+func (d *Datastore) VerifOpenTransaction() (id string, timerArmed bool) {
+	return d.transactionManager.VerifOpenTransaction()
+}
+
+// VerifSchemaClient exposes the bound schema client of the datastore.
+func (d *Datastore) VerifSchemaClient() schemaClient.SchemaClientBound {
+	return d.schemaClient
+}
+
+// VerifStoreSyncMsg hands one sync update to the datastore's store routine (no semaphore involved).
+func (d *Datastore) VerifSyncChannel() chan *target.SyncUpdate {
+	return d.synCh
+}
